@@ -5,7 +5,7 @@ import json, subprocess
 CHECKS = {
  "C06": dict(
    technique="property-based testing: exhaustive sub-domains + proptest-generated streams, differential against an independent reference scanner",
-   text="Generated-input search with an explicit oracle. Exhaustive over all 251 payload lengths x every 2-way split x every single-bit error x both error modes; proptest-generated streams (frames, noise, sync bytes, truncated and bit-flipped frames, embedded frame images) under generated chunkings are read through the real link::reader::Reader over the in-memory PhysLayer and compared with an independent greedy reference scanner; a separate CRC clause checks 1-3 bit errors without the scanner. Exploration is the right level: the domain is unbounded byte streams x chunkings; finite sub-domains are enumerated completely and reported as such.",
+   text="Generated-input search with an explicit oracle. Exhaustive over all 251 payload lengths x every 2-way split x every single-bit error x both error modes; proptest-generated streams (frames, noise, sync bytes, truncated and bit-flipped frames, embedded frame images) under generated chunkings are read through the real link::reader::Reader over the in-memory PhysLayer and compared with an independent greedy reference scanner; a separate CRC clause checks 1-3 bit errors without the scanner; a sessions sub-check reads 2-4 sessions through ONE reader with Reader::reset() in between (sessions ending inside a frame, at a framing error, or abandoned with bytes buffered) and requires every session to deliver exactly what the scanner finds in its own bytes. Exploration is the right level: the domain is unbounded byte streams x chunkings; finite sub-domains are enumerated completely and reported as such.",
    note="Trusted base: /verif/harness/wire (bit-serial CRC-16/DNP, frame encoder, greedy scanner written from IEEE 1815), hook H3 (VerifIo returns exactly the queued chunk per read). Assumes weight<=3 errors inside one block are always detected by CRC-16/DNP (HD=6 at these lengths).",
    design="DESIGN.md §5 C06"),
 
@@ -16,13 +16,13 @@ CHECKS = {
    design="DESIGN.md §5 C03"),
  "C08": dict(
    technique="property-based testing: exhaustive length sweep + proptest-mutated segment streams against a validity predicate",
-   text="Every fragment length 1..=2048 is written through transport::real::writer::Writer, deframed by the reference codec (FIR/FIN/sequence/<=249 rules) and read back through transport::real::reader::Reader under three chunkings, for both directions and every start sequence; generated segment streams from two senders are mutated (drop, duplicate, swap, re-address, FIR/FIN toggles, sequence perturbation, empty frames, interleaving) and the delivered fragments are compared, both ways, with the statement's validity predicate.",
-   note="Trusted base: harness/wire/transport.rs (segmenter + predicate), harness/wire/link.rs. Link addressing is kept valid (C07 covers addressing).",
+   text="Every fragment length 1..=2048 is written through transport::real::writer::Writer, deframed by the reference codec (FIR/FIN/sequence/<=249 rules) and read back through transport::real::reader::Reader under three chunkings, for both directions and every start sequence; generated segment streams from two senders are mutated (drop, duplicate, swap, re-address, FIR/FIN toggles, sequence perturbation, empty frames, interleaving, segments addressed to a broadcast address, datagram transport with two socket addresses per link address and several frames per datagram, reads abandoned and pop() called in the middle of a fragment) and the delivered fragments are compared, both ways, with the statement's validity predicate.",
+   note="Trusted base: harness/wire/transport.rs (segmenter + predicate), harness/wire/link.rs. Link addressing is kept valid (C07 covers addressing). A broadcast segment with FIR but without FIN is taken to end the fragment in progress (as every FIR does) and to start nothing.",
    design="DESIGN.md §5 C08"),
  "C12": dict(
    technique="property-based testing of request/response pairs on a deterministic session rig, reference parser as second opinion",
-   text="Generated requests (every function code, flag combination, sequence number, 0-4 object headers of acceptable / not-acceptable-for-the-function / unknown / truncated kinds, large control echoes) are sent in idle, solicited-confirm-wait and both unsolicited-confirm-wait states; every transmitted fragment is checked for correlation, flags, numbering, size bound, clean parse by the library parser and the reference walker, silence for no-reply functions and an IIN2 error bit for anything rejected.",
-   note="Which IIN2 error bit is used, and silence-vs-error for no-ack functions / CONFIRM with unacceptable objects, are not asserted. Fragments carrying a response function code are not requests and are not judged.",
+   text="Generated requests (every function code, flag combination, sequence number, 0-4 object headers of acceptable / not-acceptable-for-the-function / unknown / truncated kinds, large control echoes) are sent in idle, solicited-confirm-wait and both unsolicited-confirm-wait states; every transmitted fragment is checked for correlation, flags, numbering, size bound, clean parse by the library parser and the reference walker, silence for no-reply functions whenever every object header parses (usable by the function or not) and an IIN2 error bit for anything rejected, including well-formed but unreadable headers in a READ that was deferred during an unsolicited confirm wait.",
+   note="Which IIN2 error bit is used, and silence-vs-error for no-ack functions / CONFIRM whose objects do not parse, are not asserted. Fragments carrying a response function code are not requests and are not judged.",
    design="DESIGN.md §5 C12"),
  "C13": dict(
    technique="stateful property-based testing against a reference model of the indication bits (shares the C03 ledger)",
@@ -41,8 +41,8 @@ CHECKS = {
    design="DESIGN.md §5 C05"),
  "C11": dict(
    technique="property-based testing against a mirror-database snapshot and a series-shape/gating oracle",
-   text="Generated databases (8 types, sparse indices to 65535, all static variations, arbitrary flags, runs long enough to split bit-packed headers), READs of 1-4 headers (class 0, classes, all-objects/ranges, specific variations, overlaps), tx buffers 249..2048, updates between any two fragments and per-fragment confirm behaviours; the concatenated series is compared object by object with the snapshot taken when the READ was sent (points per header, ascending, value, variation/promotion), and FIR/FIN/sequence/CON, confirm gating, abort and fresh-series rules are checked step by step on the virtual clock.",
-   note="Point add/remove during a series and READs beyond max_read_request_headers are outside the domain; type order inside a class-0 expansion is not asserted.",
+   text="Generated databases (8 types, sparse indices to 65535, all static variations, arbitrary flags, runs long enough to split bit-packed headers), READs of 1-4 headers (class 0, classes, all-objects/ranges, specific variations, overlaps), tx buffers 249..2048, octet strings up to 255 octets, updates between any two fragments and per-fragment confirm behaviours (right, wrong, UNS bit, slow, missing, ignored traffic half way through the wait, new request, disconnect, pre-empting connection); the concatenated series is compared object by object with the snapshot taken when the READ was sent (points per header, ascending, value, variation/promotion), and FIR/FIN/sequence/CON, confirm gating, abort and fresh-series rules are checked step by step on the virtual clock.",
+   note="One known finding (objects larger than any fragment, DESIGN.md §12.4) is listed in known_findings.json and printed as KNOWN-FINDING. Point add/remove during a series and READs beyond max_read_request_headers are outside the domain; type order inside a class-0 expansion is not asserted.",
    design="DESIGN.md §5 C11"),
  "C14": dict(
    technique="stateful property-based testing: clauses U1-U8 over time-stamped unsolicited fragments (shares the C03 interpreter)",
@@ -51,12 +51,12 @@ CHECKS = {
    design="DESIGN.md §5 C14"),
  "C01": dict(
    technique="property-based testing / fuzz-style generation: grammar+mutation fragments through every parser consumer, frame streams through link+transport at all decode levels, hostile session scripts with a liveness probe",
-   text="Four generators: (1) grammar-derived and mutated application fragments through ParsedFragment::parse, Display at all decode levels, header iteration, request/response validation, measurement extraction with a draining handler and control echo writers; (2) frame streams with arbitrary control bytes, addresses, transport headers and damage through the real link layer and transport reassembly, both roles, all decode-level combinations; (3) hostile session scripts (fragments, raw segments, raw wire bytes, state-moving requests, updates into tiny event buffers, confirms, time, reconnects) against a real outstation session with generated configuration. Oracle: no panic (overflow checks and debug assertions on), no busy loop at one virtual instant, and after the script the endpoint still answers a link status request and a READ with a fresh sequence number (Close mode: on the next connection). (4) the same for a real master: hostile responses (sequence-matched or not, echo deviations, hostile object parts) to every kind of user request and auto task, raw segments and bytes, foreign sources, with the start-up sequence or a quiet association; afterwards the master must answer a link status request and serve a user READ.",
+   text="Four generators: (1) grammar-derived and mutated application fragments through ParsedFragment::parse, Display at all decode levels, header iteration, request/response validation, measurement extraction with a draining handler and control echo writers; (2) frame streams with arbitrary control bytes, addresses, transport headers and damage through the real link layer and transport reassembly, both roles, all decode-level combinations; (3) hostile session scripts (fragments, raw segments, raw wire bytes, state-moving requests, updates into tiny event buffers, confirms, time, reconnects) against a real outstation session with generated configuration. Oracle: no panic (overflow checks and debug assertions on), no busy loop at one virtual instant, and after the script the endpoint still answers a link status request and a READ with a fresh sequence number (Close mode: on the next connection). (4) the same for a real master: hostile responses (sequence-matched or not, echo deviations, hostile object parts) to every kind of user request and auto task, raw segments and bytes, foreign sources, with the start-up sequence or a quiet association; a Starve step leaves a user request unanswered while the outstation keeps the line busy (null unsolicited responses, stale responses, link status requests, foreign frames) more often than the response timeout: the request must still end; afterwards the master must answer a link status request and serve a user READ.",
    note="Non-yielding infinite loops are only caught by a wall-clock watchdog and reported as INCONCLUSIVE. TLS/serial/UDP sockets are not exercised; datagram semantics are (C06).",
    design="DESIGN.md §5 C01"),
  "C07": dict(
    technique="exhaustive enumeration of the link addressing table + property-based FCB sequences + generated session cases",
-   text="The complete table 256 control bytes x 19 destination addresses x 7 source addresses x role x self-address feature x {fresh, after link reset} x 2 passes (440k frames) is run through link::layer::Layer and compared with a transcription of the statement (accepted, reply function/addresses, delivery, FCB toggling); generated RESET/CONFIRMED_USER_DATA sequences check the frame-count-bit rule; generated session cases send valid and invalid fragments from the configured master, a foreign master and the three broadcast addresses in idle and confirm-wait states with the any-master/broadcast features on and off: nothing may be transmitted in reaction to a broadcast, nothing but link-layer traffic and no callback for a foreign master.",
+   text="The complete table 256 control bytes x 19 destination addresses x 7 source addresses x role x self-address feature x {fresh, after link reset} x 2 passes (440k frames) is run through link::layer::Layer and compared with a transcription of the statement (accepted, reply function/addresses, delivery, FCB toggling); generated RESET/CONFIRMED_USER_DATA sequences check the frame-count-bit rule; generated session cases send valid and invalid fragments from the configured master, a foreign master and the three broadcast addresses in idle and confirm-wait states with the any-master/broadcast features on and off: nothing may be transmitted in reaction to a broadcast, nothing but link-layer traffic and no callback for a foreign master; fragments also travel in two transport segments, from one master address or from two (configured + foreign), and CONFIRMs matching the outstanding response arrive by broadcast and from foreign masters.",
    note="Frames with malformed flag combinations and secondary frames are only required not to be acted on when not addressed to the endpoint. A REQUEST_LINK_STATUS to a broadcast address is required NOT to be answered.",
    design="DESIGN.md §5 C07"),
  "C02": dict(
